@@ -255,11 +255,11 @@ fn run_random(c: &mut dyn Choices, ctx: &Ctx) -> Outcome {
   // (appended picks, recorded tapes keep their meaning) one history in eight works on a crowded subject:
   // 33..45 subscribers (or in-callback subscribers) up front, and unsubscribes reach into the crowd
   if c.pick(8) == 7 {
-    let m = 33 + c.pick(13);
+    let m = crate::ast::pick_size(c, 33, 13, &[64, 65, 130, 260]);
     let first = if c.pick(3) == 0 { Op::SubscribeNestingMany(m) } else { Op::SubscribeMany(m) };
     for op in ops.iter_mut() {
       if let Op::UnsubOne(_) = op {
-        *op = Op::UnsubOne(c.pick(48));
+        *op = Op::UnsubOne(crate::ast::pick_size(c, 0, 48, &[63, 64, 129, 259]));
       }
     }
     ops.insert(0, first);
